@@ -3,8 +3,8 @@ import os, sys, itertools
 from common import *
 
 PID = 'C05'
-TARGETS = ['Properties/C05.vo', 'Bridge/IntBridge.vo']
-KERNELS = ['G6_int']
+TARGETS = ['Properties/C05.vo', 'Bridge/IntBridge.vo', 'Bridge/CodegenBridge.vo']
+KERNELS = ['G6_int', 'G11_codegen']      # G11: the struct runs the code generator builds from adjacent Int fields
 PROP_FILE = 'Properties/C05.v'
 
 HEADER_PY = "from bisturi.packet import Packet\nfrom bisturi.field import Int, Data, Ref, Bits\n"
@@ -39,6 +39,25 @@ def configs(tier):
             for fe, ce in ends:
                 for gen in (True, False):
                     out.append((n, signed, fe, ce, gen))
+    return out
+
+
+def neighbours(tier, rng):
+    """classes of 2..4 adjacent Int fields with individually chosen width / signedness / byte order, generated code"""
+    out = []
+    for k in range(60 if tier == 'quick' else 500):
+        ce = rng.choice([None, None, 'little', 'big'])
+        fields = [((rng.choice([1, 1, 2, 4, 8, 3]), rng.random() < 0.4, rng.choice([None, 'big', 'little', 'network', 'local'])), ce)
+                  for _ in range(rng.choice([2, 3, 3, 4]))]
+        conf = {} if ce is None else {'endianness': ce}
+        if rng.random() < 0.2:
+            conf['vectorize'] = False
+        nm = f"N{k}"
+        src = (f"class {nm}(Packet):\n    __bisturi__ = {conf!r}\n" +
+               "".join(f"    v{i} = Int({n}, signed={sg}, endianness={SPELL[fe]})\n" for i, ((n, sg, fe), _) in enumerate(fields)))
+        total = sum(f[0][0] for f in fields)
+        raws = [bytes(range(1, total + 1)), bytes([0x80 + i for i in range(total)])] + [bytes(rng.randrange(256) for _ in range(total)) for _ in range(4)]
+        out.append((nm, src, fields, raws))
     return out
 
 
@@ -218,6 +237,41 @@ def run(tier, seed, rng):
         k += 1   # True is an int in python: encodes as 1
         if not ('ok' in o and int.from_bytes(bytes.fromhex(o['ok']), 'big' if ref_big(c[2], c[3]) else 'little') == 1):
             failures.append(dict(kind='oracle', sig='int-bool', what=f"Int({c[0]}) does not pack True as 1", observed=o, cls=class_src(c)))
+    # ---- integers next to each other: adjacent fixed-size fields are decoded / encoded by one struct call in generated code;
+    # each field must still get its OWN byte order, signedness and bytes
+    nb = neighbours(tier, rng)
+    nb_payloads = []
+    for part in shard(nb, max(1, len(nb) // NPROC + 1)):
+        nb_payloads.append(dict(header=HEADER_PY, blocks=[dict(name=nm, src=src) for nm, src, _, _ in part], modname='c05n',
+                                cases=[dict(cls=nm, op='unpack', raw=raw.hex()) for nm, _, _, raws in part for raw in raws]))
+    nb_results = run_impl_parallel(os.path.join(VERIF, 'harness', 'impl_pkt.py'), nb_payloads)
+    nb_out = [o for res in nb_results for o in res['outcomes']]
+    k = 0
+    pack_cases, pack_meta = [], []
+    dist['neighbour_classes'] = len(nb)
+    dist['neighbour_decodes'] = 0
+    for nm, src, fields, raws in nb:
+        for raw in raws:
+            o = nb_out[k]
+            k += 1
+            want, pos = [], 0
+            for (n, signed, fe), ce in fields:
+                want.append(ref_decode(n, signed, ref_big(fe, ce), raw[pos:pos + n]))
+                pos += n
+            got = [v for _, v in o['ok']['f']] if 'ok' in o else o
+            dist['neighbour_decodes'] += 1
+            if got != want:
+                failures.append(dict(kind='oracle', sig='int-decode-neighbours', what='adjacent Int fields: a field was not decoded from its own bytes in its own byte order',
+                                     cls=src, raw=raw.hex(), observed=str(got), required=want))
+            else:
+                pack_cases.append(dict(cls=nm, op='pack', value={"p": nm, "f": [[f"v{i}", v] for i, v in enumerate(want)]}))
+                pack_meta.append((nm, src, raw, want))
+    blocks = [dict(name=nm, src=src) for nm, src, _, _ in nb]
+    pres = run_impl(os.path.join(VERIF, 'harness', 'impl_pkt.py'), dict(header=HEADER_PY, blocks=blocks, modname='c05np', cases=pack_cases))
+    for (nm, src, raw, want), o in zip(pack_meta, pres['outcomes']):
+        if o.get('ok') != raw.hex():
+            failures.append(dict(kind='oracle', sig='int-encode-neighbours', what='adjacent Int fields: the values do not encode to the bytes that decode to them',
+                                 cls=src, values=want, observed=str(o), required=raw.hex()))
     # ---- Tie B: the model on the same cases
     lines = []
     for (cfg, kind, x), ob in zip(cases, obs):
@@ -247,7 +301,7 @@ def run(tier, seed, rng):
                 rule=("per Int configuration (width x signed x field endianness spelling x class default x generated/generic code): "
                       "decode of all 2^8 patterns for n=1 (thorough: all 2^16 for n=2 in two orders), boundary patterns, every byte lane "
                       "x 12 lane values, short and over-long inputs; encode of all integers in [lo-2,hi+2) for n=1, boundaries, "
-                      "powers of two +-1, random in-range values; non-integers. distinct = distinct (width, signed, endianness, op, input)"),
+                      "powers of two +-1, random in-range values; non-integers; classes of 2..4 adjacent Int fields of mixed width / signedness / byte order (one struct call in generated code) decoded and re-encoded field by field. distinct = distinct (width, signed, endianness, op, input)"),
                 samples=[dict(cls=class_src(cases[i][0]), op=cases[i][1], input=cases[i][2].hex() if cases[i][1] == 'D' else cases[i][2],
                               observed=str(obs[i] if not isinstance(obs[i], bytes) else obs[i].hex()))
                          for i in (0, len(cases) // 3, len(cases) // 2, len(cases) - 1)],
